@@ -985,6 +985,9 @@ func init() {
 			for i := shard; i < n/2; i += nsh {
 				emit(firstUseScenario(NewRNG(seed, fmt.Sprintf("c20f-%d", i))))
 			}
+			for i := shard; i < 4*n; i += nsh {
+				emit(ccScenario(NewRNG(seed, fmt.Sprintf("cc-%d", i))))
+			}
 		})
 	}
 	props["C09"] = func(tier string, seed uint64, out *Out) {
@@ -998,6 +1001,9 @@ func init() {
 			}
 			if shard == 0 {
 				emit(probeAfterDeath())
+			}
+			for i := shard; i < 20*n; i += nsh {
+				emit(riScenario(NewRNG(seed, fmt.Sprintf("ri-%d", i))))
 			}
 		})
 	}
@@ -1036,6 +1042,13 @@ func init() {
 		runSharded("C19", tier, seed, out, 8, func(shard, nsh int, emit func(string)) {
 			for i := shard; i < len(jobs); i += nsh {
 				emit(jobs[i]())
+			}
+			ncc := 600
+			if tier != "quick" {
+				ncc = 20000
+			}
+			for i := shard; i < ncc; i += nsh {
+				emit(ccScenario(NewRNG(seed, fmt.Sprintf("cc19-%d", i))))
 			}
 		})
 	}
